@@ -10,3 +10,18 @@ var selectOrderMode uint32
 
 // SetSelectOrder switches the poll order of every select statement in the process.
 func SetSelectOrder(mode uint32) { selectOrderMode = mode }
+
+// wakeFirstMode lives in the (overlaid) runtime: 0 = stock behaviour (the waker runs on), 1 = a goroutine of a bubble that
+// made another one runnable yields to it at once.
+//
+//go:linkname wakeFirstMode runtime.wakeFirstMode
+var wakeFirstMode uint32
+
+// SetWakeFirst switches the internal scheduling policy of the process.
+func SetWakeFirst(on bool) {
+	if on {
+		wakeFirstMode = 1
+	} else {
+		wakeFirstMode = 0
+	}
+}
